@@ -239,7 +239,7 @@ func runCheck(prop string, o checkOpts) *checkResult {
 			sem <- struct{}{}
 			defer func() { <-sem }()
 			results[i] = verifyFunction(P, fn, []string{prop})
-		}(i, fn)
+					}(i, fn)
 	}
 	wg.Wait()
 	var all []*Obligation
